@@ -314,6 +314,47 @@ def ref_induced(J_site, areas, sites, edge_centers):
     return w @ np.asarray(J_site, float)
 
 
+class ScreeningOracle:
+    """Reference for the induced potential of a set of edge currents, INDEPENDENT of the code under test: nothing is
+    read back from solver / device / mesh helpers (Device.K0, A0, TDGLSolver.areas, Mesh.get_quantity_on_site,
+    EdgeMesh.directions ...).  Inputs: the mesh's raw geometry arrays (site coordinates in units of xi, edge index
+    pairs, site areas; the geometry itself is C07's subject) and the layer parameters the harness ASKED for.
+
+      site current   K_j = 1/2 * mean over the edges e at site j of  J_e * u_e      (u_e = unit vector of edge e;
+                     the documented unit-direction-weighted average of edge values, in the solver's units)
+      potential      A_i = 1/(pi * Lambda) * sum_j K_j * a_j / |r_i - r_j|,   Lambda = lambda^2 / d
+                     (mu_0/(4 pi) * K0/A0 with K0 = 4 xi Bc2 / (mu_0 Lambda), A0 = xi Bc2), lengths in device units:
+                     r_j = xi * site_j, r_i = the midpoint of edge i, a_j = xi^2 * area_j."""
+
+    def __init__(self, mesh, xi, london_lambda, thickness):
+        import numpy as np
+
+        self.np = np
+        sites = np.asarray(mesh.sites, float) * xi
+        edges = np.asarray(mesh.edge_mesh.edges)
+        d = sites[edges[:, 1]] - sites[edges[:, 0]]
+        self.unit = d / np.sqrt((d * d).sum(axis=1))[:, None]
+        self.edges = edges
+        self.sites = sites
+        self.centers = 0.5 * (sites[edges[:, 0]] + sites[edges[:, 1]])
+        self.count = np.bincount(edges.ravel(), minlength=len(sites)).astype(float)
+        Lambda = london_lambda ** 2 / thickness
+        self.weights = np.asarray(mesh.areas, float) * xi ** 2 / (np.pi * Lambda)
+
+    def site_current(self, J_edge):
+        np = self.np
+        J_edge = np.asarray(J_edge, float)
+        out = np.zeros((len(self.sites), 2))
+        for k in (0, 1):
+            f = J_edge * self.unit[:, k]
+            out[:, k] = (np.bincount(self.edges[:, 0], weights=f, minlength=len(self.sites))
+                         + np.bincount(self.edges[:, 1], weights=f, minlength=len(self.sites))) / self.count / 2
+        return out
+
+    def induced(self, J_edge):
+        return ref_induced(self.site_current(J_edge), self.weights, self.sites, self.centers)
+
+
 def natural_run(tdgl, p, tmp=None, opts=None):
     """One run of the real solver with real physics; returns a "flags" trace.
     `opts`: a SolverOptions object to RE-USE (natural_history); the fields named in p["reuse_set"] are assigned on it
@@ -325,8 +366,14 @@ def natural_run(tdgl, p, tmp=None, opts=None):
     from tdgl.solver.solver import TDGLSolver
 
     sandbox = Path(tempfile.mkdtemp(prefix="stepnat", dir=tmp))
+    scale = p.get("scale", 1.0)
+    layer_asked = dict(xi=p.get("xi", 1.0), lam=p.get("lam", 2.0), d=p.get("d", 0.1))        # in units of `scale`
     dev = devices.make(tdgl, p.get("dev", "bar"), mel=p.get("mel", 0.8), probes=0,
-                       length_units=p.get("length_units", "um"), scale=p.get("scale", 1.0))
+                       length_units=p.get("length_units", "um"), scale=scale, **layer_asked)
+    if p.get("layer_edit"):
+        import copy as _copy
+
+        dev = _copy.deepcopy(dev)          # the shared, cached device must not be edited
     adaptive = p.get("adaptive", True)
     screening = p.get("screening", False)
     dt_init = p["dt_init"]
@@ -404,8 +451,7 @@ def natural_run(tdgl, p, tmp=None, opts=None):
         err_exp = float(np.max(np.linalg.norm(K - A_exp, axis=1) / np.maximum(np.linalg.norm(A_exp, axis=1), 1e-20)))
         if close(float(err), err_exp, 1e-9):
             rels.append("error")
-        J_site = self.device.mesh.get_quantity_on_site(np.asarray(current_density))
-        K_ref = ref_induced(J_site, self.areas, self.sites, self.edge_centers)
+        K_ref = oracle().induced(np.asarray(current_density))
         if np.abs(K - K_ref).max() <= 1e-10 * max(float(np.abs(K_ref).max()), 1e-300):
             rels.append("kernel")
         ev.append({"ev": "induced", "rels": rels, "conv": bool(err < tol), "err": float(err)})
@@ -476,6 +522,23 @@ def natural_run(tdgl, p, tmp=None, opts=None):
         st["the_solver"] = self
         return res
 
+    # history "layer parameter changed in place between two runs on one device": a first (unobserved) screening run, then
+    # e.g. dev.layer.london_lambda = x (Layer is mutable), then the observed run; the oracle uses the values asked for
+    if p.get("layer_edit"):
+        lo = tdgl.SolverOptions(solve_time=2 * dt_init, dt_init=dt_init, adaptive=False, include_screening=True,
+                                screening_tolerance=tol, save_every=5, progress_interval=10 ** 9, pause_on_interrupt=False,
+                                output_file=str(sandbox / "before_edit.h5"), field_units="mT", current_units="uA")
+        tdgl.solve(dev, lo, applied_vector_potential=p.get("field", 0.0), terminal_currents=currents)
+        for name, value in p["layer_edit"].items():
+            setattr(dev.layer, {"lam": "london_lambda", "d": "thickness", "xi": "coherence_length"}[name], value * scale)
+            layer_asked[name] = value
+    _orc = {}
+
+    def oracle():
+        if "o" not in _orc:
+            _orc["o"] = ScreeningOracle(dev.mesh, layer_asked["xi"] * scale, layer_asked["lam"] * scale, layer_asked["d"] * scale)
+        return _orc["o"]
+
     # history "seeded from another solution": p["seed"] overrides the parameters of a first (unobserved) run on the same
     # device and drive whose Solution is handed to the observed run as seed_solution
     seed_solution = None
@@ -521,8 +584,7 @@ def natural_run(tdgl, p, tmp=None, opts=None):
                 azero = bool(not np.any(A))
                 mism = 0.0
                 if screening:
-                    J_site = s.device.mesh.get_quantity_on_site(J)
-                    A_ref = ref_induced(J_site, s.areas, s.sites, s.edge_centers)
+                    A_ref = oracle().induced(J)
                     den = np.maximum(np.linalg.norm(A, axis=1), 1e-20)
                     mism = float(np.max(np.linalg.norm(A - A_ref, axis=1) / den)) if np.any(A) or np.any(A_ref) else 0.0
                 q = BOT if not math.isfinite(mism) else int(min(10 ** 8, math.ceil(mism / tol * 1000)))
